@@ -152,8 +152,8 @@ class BinaryCarver(BaseCarver):
         if X is not None:
             # crosstab for each feature
             for feature in features:
-                # computing crosstab with str_nan
-                xtab = crosstab(X[feature], y)
+                # computing crosstab with str_nan (by position: index labels may be duplicated)
+                xtab = crosstab(X[feature].reset_index(drop=True), y.reset_index(drop=True))
 
                 # reordering according to known_order (a modality without observation has no row)
                 xtab = xtab.reindex(labels_orders[feature], fill_value=0)
